@@ -157,6 +157,11 @@ type C15Contract struct {
 	Abandon    bool           // OV: never started (becomes terminable 30 days after its start time)
 	Tries      map[common.Address]int // OV: reveal attempts per voter
 	MultiTries int
+	FinTries   int      // OV: finish / prolong attempts that went nowhere
+	Lazy       bool     // OV: hardly anybody votes, so that the voting has to be prolonged
+	Proofs     int      // OV: proofs sent in the current round
+	PropTries  int      // Multisig
+	Allow      [][2]*Actor // erc20: (holder, spender) pairs with an approval
 }
 
 // C15Action is one generated contract transaction with what the harness knows about it.
@@ -207,6 +212,7 @@ type C15Gen struct {
 	usedC     map[*C15Contract]bool
 	usedS     map[common.Address]bool
 	jumped    bool
+	plain     []*types.Transaction // non-contract txs of the current batch (funding of contract addresses)
 }
 
 func NewC15Gen(w *World, twin *Replica, r *verifutil.Rng, kinds []string) *C15Gen {
@@ -614,6 +620,11 @@ func (g *C15Gen) newDeploy(kind string) *cand {
 			}
 			c.Salts, c.Votes, c.Tries = map[common.Address][]byte{}, map[common.Address]byte{}, map[common.Address]int{}
 			c.Abandon = r.Intn(5) == 0
+			c.Lazy = !c.Abandon && r.Intn(4) == 0
+			if c.Lazy {
+				cd.args[5] = []byte{byte(r.Range(15, 30))} // quorum nobody will reach
+				cd.args[6] = u64b(ns)
+			}
 		case kOL, kROL:
 			if l := g.live(kOV); len(l) > 0 && r.Intn(4) != 0 {
 				c.OV = l[r.Intn(len(l))].Addr
@@ -649,6 +660,17 @@ func (g *C15Gen) newDeploy(kind string) *cand {
 }
 
 func (g *C15Gen) balanceOf(a common.Address) *big.Int { return g.st().GetBalance(a) }
+
+// fundContract adds a plain SendTx to the contract address to the batch.
+func (g *C15Gen) fundContract(c *C15Contract, amount *big.Int) {
+	from := g.rich(new(big.Int).Add(amount, Dna(50)))
+	if from == nil {
+		return
+	}
+	g.usedS[from.Addr] = true
+	to := c.Addr
+	g.plain = append(g.plain, g.W.Tx(from, types.SendTx, &to, amount, nil))
+}
 
 func (g *C15Gen) dust() *big.Int { return new(big.Int).Mul(g.fpg(), big.NewInt(100)) }
 
@@ -687,8 +709,12 @@ func (g *C15Gen) candidates(c *C15Contract) []*cand {
 	switch c.Kind {
 	case kTimeLock:
 		if bal.Cmp(Dna(1)) < 0 && r.Intn(2) == 0 {
-			// a transfer carrying a pay amount funds the contract if it succeeds
-			add("Call", "transfer", owner, Dna(int64(r.Range(2, 60))), g.someAddr().Bytes(), big.NewInt(0).Bytes())
+			if r.Bool() {
+				// a transfer carrying a pay amount funds the contract if it succeeds
+				add("Call", "transfer", owner, Dna(int64(r.Range(2, 60))), g.someAddr().Bytes(), big.NewInt(0).Bytes())
+			} else {
+				g.fundContract(c, Dna(int64(r.Range(2, 60))))
+			}
 		}
 		add("Call", "transfer", owner, nil, g.someAddr().Bytes(), part(bal, r).Bytes())
 		if r.Intn(3) == 0 {
@@ -719,31 +745,52 @@ func (g *C15Gen) candidates(c *C15Contract) []*cand {
 				add("Call", "push", owner, nil, g.someAddr().Bytes(), Dna(1).Bytes())
 			}
 		} else {
-			if bal.Cmp(Dna(1)) < 0 {
-				// any successful call with a pay amount funds it
-				if len(c.Added) > 0 {
-					v := c.Added[r.Intn(len(c.Added))]
-					add("Call", "send", g.richOr(v, Dna(200)), Dna(int64(r.Range(2, 40))), g.someAddr().Bytes(), big.NewInt(0).Bytes())
-				}
+			if bal.Cmp(Dna(1)) < 0 && r.Intn(3) != 0 {
+				g.fundContract(c, Dna(int64(r.Range(2, 60))))
 			}
-			if c.PropAmount == nil || r.Intn(6) == 0 {
-				c.PropDest, c.PropAmount = g.someAddr(), part(bal, r)
-			}
+			// real voters = those whose add made it into the chain
+			var voters []*Actor
+			seen := map[common.Address]bool{}
 			for _, v := range c.Added {
-				if r.Intn(2) == 0 {
-					d, a := c.PropDest, c.PropAmount
-					if r.Intn(5) == 0 {
-						d, a = g.someAddr(), part(bal, r)
-					}
-					add("Call", "send", g.richOr(v, Dna(60)), nil, d.Bytes(), a.Bytes())
-					break
+				if !seen[v.Addr] && g.st().GetContractValue(c.Addr, append([]byte("addr"), v.Addr.Bytes()...)) != nil {
+					voters = append(voters, v)
+					seen[v.Addr] = true
 				}
 			}
-			add("Call", "push", g.rich(Dna(60)), nil, c.PropDest.Bytes(), c.PropAmount.Bytes())
+			if c.PropAmount == nil || c.PropTries > 10 {
+				c.PropDest, c.PropAmount, c.PropTries = g.someAddr(), part(bal, r), 0
+			}
+			c.PropTries++
+			matching := 0
+			var missing []*Actor
+			for _, v := range voters {
+				d := g.st().GetContractValue(c.Addr, append([]byte("addr"), v.Addr.Bytes()...))
+				am := g.st().GetContractValue(c.Addr, append([]byte("amount"), v.Addr.Bytes()...))
+				if bytes.Equal(d, c.PropDest.Bytes()) && bytes.Equal(am, c.PropAmount.Bytes()) && len(c.PropAmount.Bytes()) > 0 {
+					matching++
+				} else {
+					missing = append(missing, v)
+				}
+			}
+			minVotes := int(c15B0(g.cval(c.Addr, "minVotes")))
+			if matching >= minVotes && c.PropAmount.Sign() > 0 {
+				add("Call", "push", g.rich(Dna(60)), nil, c.PropDest.Bytes(), c.PropAmount.Bytes())
+				add("Call", "push", g.rich(Dna(60)), nil, c.PropDest.Bytes(), c.PropAmount.Bytes()) // (twice: more weight)
+			} else if len(missing) > 0 && c.PropAmount.Sign() > 0 {
+				v := missing[r.Intn(len(missing))]
+				d, am := c.PropDest, c.PropAmount
+				if r.Intn(6) == 0 {
+					d, am = g.someAddr(), part(bal, r)
+				}
+				add("Call", "send", g.richOr(v, Dna(60)), nil, d.Bytes(), am.Bytes())
+			}
 			if r.Intn(4) == 0 {
 				add("Call", "push", g.rich(Dna(60)), nil, g.someAddr().Bytes(), new(big.Int).Add(bal, big.NewInt(7)).Bytes())
 			}
-			if r.Intn(5) == 0 {
+			if r.Intn(6) == 0 {
+				add("Call", "send", g.rich(Dna(60)), nil, g.someAddr().Bytes(), part(bal, r).Bytes()) // probably not a voter
+			}
+			if r.Intn(6) == 0 {
 				add("Call", "add", owner, nil, g.someAddr().Bytes())
 			}
 		}
@@ -777,7 +824,11 @@ func (g *C15Gen) candidates(c *C15Contract) []*cand {
 		}
 	case kOL:
 		if bal.Sign() == 0 && r.Intn(2) == 0 {
-			add("Call", "checkOracleVoting", g.rich(Dna(100)), Dna(int64(r.Range(1, 30)))) // funds it when it succeeds
+			if r.Bool() {
+				add("Call", "checkOracleVoting", g.rich(Dna(100)), Dna(int64(r.Range(1, 30)))) // funds it when it succeeds
+			} else {
+				g.fundContract(c, Dna(int64(r.Range(1, 30))))
+			}
 		}
 		add("Call", "checkOracleVoting", g.rich(Dna(60)), nil)
 		add("Call", "push", g.rich(Dna(60)), nil)
@@ -826,9 +877,16 @@ func (g *C15Gen) candidates(c *C15Contract) []*cand {
 				c.Holders = append(c.Holders, to)
 			}
 		case 2:
-			add("Call", "approve", g.richOr(h, Dna(300)), pay, to.Addr.Bytes(), amt.Bytes())
+			if cd := add("Call", "approve", g.richOr(h, Dna(300)), pay, to.Addr.Bytes(), amt.Bytes()); cd != nil && h == c.Owner && len(c.Allow) < 6 {
+				c.Allow = append(c.Allow, [2]*Actor{h, to})
+			}
 		case 3:
-			add("Call", "transferFrom", g.rich(Dna(300)), pay, h.Addr.Bytes(), to.Addr.Bytes(), amt.Bytes())
+			if len(c.Allow) > 0 && r.Intn(4) != 0 {
+				p := c.Allow[r.Intn(len(c.Allow))]
+				add("Call", "transferFrom", g.richOr(p[1], Dna(300)), pay, p[0].Addr.Bytes(), to.Addr.Bytes(), big.NewInt(int64(r.Range(1, 40))).Bytes())
+			} else {
+				add("Call", "transferFrom", g.rich(Dna(300)), pay, h.Addr.Bytes(), to.Addr.Bytes(), amt.Bytes())
+			}
 		case 4:
 			add("Call", "getBalance", g.rich(Dna(300)), pay, h.Addr.Bytes())
 		case 5:
@@ -917,6 +975,9 @@ func (g *C15Gen) ovDuties(c *C15Contract) (acts []*cand, multi *C15Multi) {
 		if dur < vd {
 			// secret phase: a few identities prove and lock their vote
 			n := r.Range(1, 4)
+			if c.Lazy {
+				n = 1 - minInt(c.Proofs, 1)
+			}
 			for _, v := range g.W.Idents {
 				if n == 0 {
 					break
@@ -939,6 +1000,7 @@ func (g *C15Gen) ovDuties(c *C15Contract) (acts []*cand, multi *C15Multi) {
 				}
 				if cd := mk("sendVoteProof", v, pay, h[:]); cd != nil {
 					c.Salts[v.Addr], c.Votes[v.Addr] = salt, vote
+					c.Proofs++
 					va := v.Addr
 					cd.onMut = func() { delete(c.Salts, va) }
 					acts = append(acts, cd)
@@ -956,6 +1018,23 @@ func (g *C15Gen) ovDuties(c *C15Contract) (acts []*cand, multi *C15Multi) {
 			}
 		}
 		voted := c15U64(g.cval(c.Addr, "votedCount"))
+		if c.Lazy && voted == 0 {
+			// quorum is out of reach: only prolonging helps (reveals are refused)
+			g.usedC[c] = true
+			if r.Intn(3) == 0 && len(pending) > 0 {
+				v := pending[0]
+				if cd := mk("sendVote", v, nil, []byte{c.Votes[v.Addr]}, c.Salts[v.Addr]); cd != nil {
+					c.Tries[v.Addr]++
+					acts = append(acts, cd)
+				}
+			} else if cd := mk("prolongVoting", g.rich(Dna(100)), nil); cd != nil {
+				acts = append(acts, cd)
+				c.Lazy = r.Intn(3) == 0 // usually people show up in the next round
+				c.Proofs = 0
+				c.Salts, c.Votes, c.Tries = map[common.Address][]byte{}, map[common.Address]byte{}, map[common.Address]int{}
+			}
+			return
+		}
 		if len(pending) >= 2 && r.Intn(3) != 0 {
 			// designated class: every outstanding reveal and the finishVoting in one block. The
 			// finisher is the revealer with the largest nonce: the pool orders by nonce, so the
@@ -1006,7 +1085,12 @@ func (g *C15Gen) ovDuties(c *C15Contract) (acts []*cand, multi *C15Multi) {
 			}
 			return
 		}
-		// nothing left to reveal: finish or prolong
+		// nothing left to reveal: finish or prolong. When hashes stay unrevealed for good, finishing
+		// only works after the public phase: do not hammer the contract meanwhile
+		c.FinTries++
+		if c.FinTries > 3 && dur < vd+pvd && c.FinTries%12 != 0 {
+			return
+		}
 		g.usedC[c] = true
 		if voted > 0 && r.Intn(5) != 0 {
 			if cd := mk("finishVoting", g.rich(Dna(100)), nil); cd != nil {
@@ -1187,10 +1271,11 @@ func (g *C15Gen) build(cd *cand) *C15Action {
 // NextBatch returns the contract transactions of the next block: at most one per sender and
 // (apart from the voting proofs/reveals) one per contract instance, plus possibly one
 // designated several-transactions-in-one-block class.
-func (g *C15Gen) NextBatch() (acts []*C15Action, multis []*C15Multi) {
+func (g *C15Gen) NextBatch() (acts []*C15Action, multis []*C15Multi, plain []*types.Transaction) {
 	g.Step++
 	r := g.R
-	g.usedC, g.usedS = map[*C15Contract]bool{}, map[common.Address]bool{}
+	g.usedC, g.usedS, g.plain = map[*C15Contract]bool{}, map[common.Address]bool{}, nil
+	defer func() { plain = g.plain }()
 	// retire instances that never made it or were terminated
 	for _, c := range g.Contracts {
 		if !c.Dead && g.st().GetCodeHash(c.Addr) == nil && (c.Deployed || g.Step-c.Born > 3) {
